@@ -229,6 +229,22 @@ Theorem c20_fs_delete_exact :
 Proof. exact fs_delete_exact. Qed.
 Print Assumptions c20_fs_delete_exact.
 
+(* launching a job does not touch any checkpoint directory (LocalBackend._schedule) ... *)
+Theorem c20_fs_schedule_keeps : forall f t f', fs_step f (FsSchedule t) = Some f' -> f' = f.
+Proof. exact fs_schedule_keeps. Qed.
+Print Assumptions c20_fs_schedule_keeps.
+
+(* ... and, for every scheduler and run, when the job of a warm-started trial t is launched the last
+   calls were start_trial(checkpoint_trial_id=j) and copy_checkpoint(j, t), and t's checkpoint on disk
+   is what j's was when it was copied (a checkpoint exists whenever a trial is warm-started from it) *)
+Theorem c20_warm_start_checkpoint_at_launch :
+  forall (S R G : Type) (sch : scheduler S R G) (c : cfg) st its pre t post,
+    run sch c st its = pre ++ ESchedule t :: post ->
+    (exists p, pre = p ++ [EStart t None]) \/ (exists p, pre = p ++ [EResume t]) \/
+    (exists p j, pre = p ++ [EStart t (Some j); ECopy j t] /\ has_ckpt pre t = has_ckpt p j).
+Proof. intros S R G sch c. exact (warm_start_checkpoint_at_launch sch c). Qed.
+Print Assumptions c20_warm_start_checkpoint_at_launch.
+
 (* on disk: in every PBT run (after the fix), when a clone is copied from trial j which has reported
    before (its script checkpoints before reporting) and is not itself a clone target, j's checkpoint
    directory exists at that moment *)
@@ -274,6 +290,6 @@ Proof. vm_compute. reflexivity. Qed.
 
 Example c20_example_fs :
   fs_replay [] [(FsWrite 0 7, [(0%Z, Some 7%Z)]); (FsCopy 0 1, [(0%Z, Some 7%Z); (1%Z, Some 7%Z)]);
-                (FsCopy 0 2, [(0%Z, Some 7%Z); (2%Z, Some 7%Z)]); (FsDelete 0, [(0%Z, None); (1%Z, Some 7%Z)])] = true
+                (FsCopy 0 2, [(0%Z, Some 7%Z); (2%Z, Some 7%Z)]); (FsSchedule 2, [(2%Z, Some 7%Z)]); (FsDelete 0, [(0%Z, None); (1%Z, Some 7%Z)])] = true
   /\ fs_step [] (FsCopy 0 1) = None.
 Proof. vm_compute. split; reflexivity. Qed.
